@@ -215,6 +215,7 @@ void CopyOptions(const Workload &from, Workload *to) {
   to->compress_conn = from.compress_conn;
   to->sym_method = from.sym_method;
   to->track = from.track;
+  to->nofeat = from.nofeat;
 }
 
 EnvPlan GeneratePlan(uint64_t seed, int size_class_max,
